@@ -24,6 +24,9 @@ CONSTANTS
   WaitTruthful = TRUE
   TermOwnTimeout = TRUE
   ClosedGuard = TRUE
+  EnqChecksAlive = TRUE
+  WaitSwallowsBadResult = TRUE
+  AliveAsksServer = TRUE
 INVARIANT TypeOK
 INVARIANT Inv_C05_Stream
 INVARIANT Inv_C05_Count
